@@ -367,6 +367,7 @@ func runEvmCase(c EvmCase, x *h.Ctx) {
 		return b, spec.Sender, true
 	}
 
+	earlierMsgs = nil
 	for _, blk := range c.Blocks {
 		// 1. queries: answered by replica A from its committed state, between two blocks
 		for ti, t := range blk {
